@@ -53,6 +53,7 @@ type Contract struct {
 	Assumes    []Clause // input well-formedness assumed at entry, not demanded of callers
 	Ensures    []Clause
 	Panics     []string
+	Recovers   []string
 	HasPanics  bool
 	Assigns    []string
 	HasAssign  bool
@@ -219,6 +220,15 @@ func (w *World) parseContractFile(path string) error {
 			} else {
 				cur.Ensures = append(cur.Ensures, c)
 				lastText = &cur.Ensures[len(cur.Ensures)-1].Text
+			}
+		case "recovers":
+			// ASSUMPTION read off the code: a deferred recover() in this function turns panics
+			// with values of these types into a returned error (the model does not execute
+			// recover); callee panics of these types are therefore not propagated
+			for _, p := range strings.Split(rest, ",") {
+				if p = strings.TrimSpace(p); p != "" {
+					cur.Recovers = append(cur.Recovers, p)
+				}
 			}
 		case "panics":
 			cur.HasPanics = true
